@@ -58,7 +58,7 @@ ASSUMPTIONS = [
 FLOORS = {
     'config:conflict': 0.1,
     'config:list-merge': 0.1,
-    'config:depth>=2-override': 0.1,
+    'config:depth>=2-override': 0.07,
     'config:file': 0.1,
     'provider:abstract-mid': 0.0004,
     'provider:collision': 0.0006,
